@@ -155,6 +155,10 @@ def corrmtx(x_input, m, method='autocorrelation'):
         x = x_input.copy()
 
 
+    if x.dtype.kind in 'iub':
+        # integer samples: products of the returned matrix must not be taken in the sample type
+        x = x.astype(float)
+
     if numpy.iscomplexobj(x):
         complex_type = True
     else:
